@@ -13,7 +13,7 @@ PROP = "C19"
 META = {
  "engine": "F-pure-functions",
  "text": "Coq theorems (Props/C19.v, closed under the global context): (1) the MIDI channel-voice encoding used for note_on/note_off/control_change/program_change/aftertouch/pitchwheel is decoded back to the same message for ALL fields in range (note, velocity, value, program 0..127, channel 0..15, pitch -8192..8191), is injective, rejects exactly the out-of-range requests, and a float argument is encoded as its truncation toward zero (Python int()); (2) the OSC 1.0 encoding (NUL-padded strings, type-tag string, big-endian int32, 4-byte float payloads) is decoded back to the same address and argument list for EVERY address and EVERY finite argument list of ints, floats and strings (induction, unbounded), hence is injective, and the device's note_on/note_off/control requests are the documented /note [note, velocity, channel] and /control [control, value, channel] forms; (3) for EVERY sequence of MPE note_on/note_off/expression calls with at most 15 notes held at once, every note_on is sent on a channel in 1..15 that no other held note uses, note_off and per-note expression go out on the note's channel, and the release frees it (invariant by induction over the call sequence); (4) for EVERY sequence of tick() runs and requests on the MIDI-file device the running sum of the written delta times puts each message at exactly the number of tick() calls that preceded its request, whatever the gap and the ticks_per_beat (exact beat arithmetic with round-half-even is the identity on tick differences), and rejected or not-implemented requests leave the timing untouched; (5) the k-th datagram of ANY history of OSC requests decodes to the k-th request and requests that differ only in the TYPE of an argument (int 2 / float 2.0 / string '2') never share a datagram. The models are tied to the repository on every run: the real MidiOutputDevice/MPEOutputDevice (fake mido port), OSCOutputDevice (loop-back UDP socket) and MidiFileOutputDevice (file read back with mido) are driven directly and through Timeline/Track.perform_event; the captured bytes are compared with the model inside Coq (vm_compute) and OSC datagrams are decoded by the Coq decoder; an independent Python oracle (status-byte table, OSC 1.0 parser, channel-uniqueness tracker) judges every result and supplies the failing input.",
- "note": "Trusted: Coq kernel + VM; the Python harness; mido's and python-osc's serialisers and the loop-back socket are exercised on every run but not modelled beyond the byte formats; struct.pack('>f') supplies the float32 payload bytes the OSC model carries (the oracle checks them independently against the exact value). Delta times: the absolute tick of every saved message is judged (integers) for gaps up to 250 beats at resolutions 7..10080; the float arithmetic of the file device is not modelled, the closing dummy note_off is compared with the model only (trailing silence is C16's). MidiFileOutputDevice does not implement control / program_change / pitch_bend (inherited no-ops): not reported, such requests must write nothing and leave the surrounding ticks intact, and are judged like note_on once the class implements them. Not covered: OSC int64/blob/bool arguments (bools are sent inside histories but not judged); MPE calls that press a note index that is already down, more than 15 simultaneous notes, and note_off of a note that is not down beyond 'nothing is sent'; release velocity of note_off (not fixed by the property). Requests with out-of-range fields are outside the property: the model says mido rejects them and they are compared only when the implementation rejects them too.",
+ "note": "Trusted: Coq kernel + VM; the Python harness; mido's and python-osc's serialisers and the loop-back socket are exercised on every run but not modelled beyond the byte formats; struct.pack('>f') supplies the float32 payload bytes the OSC model carries (the oracle checks them independently against the exact value). Delta times: the absolute tick of every saved message is judged (integers) for gaps up to 250 beats at resolutions 7..10080; the float arithmetic of the file device is not modelled, the closing dummy note_off is compared with the model only (trailing silence is C16's). A MIDI-file device class that does not implement control / program_change / pitch_bend itself (the pinned one inherited no-ops; repaired) is reported: the property lists these requests for the file too. Not covered: OSC int64/blob/bool arguments (bools are sent inside histories but not judged); MPE calls that press a note index that is already down, more than 15 simultaneous notes, and note_off of a note that is not down beyond 'nothing is sent'; release velocity of note_off (not fixed by the property). Requests with out-of-range fields are outside the property: the model says mido rejects them and they are compared only when the implementation rejects them too.",
 }
 HEADER = """From Isobar Require Import Base.Prelude IO.MidiBytes IO.Osc IO.Mpe IO.FileWire.
 From Coq Require Import QArith.
@@ -568,6 +568,12 @@ def judge_file_device(run, site, doc, ops, calls, f, supports, snippet, tag="fil
             # the device class does not implement this request itself (inherited no-op / no such method): it writes
             # nothing and must not disturb the timing of the messages around it
             run.dist("%s.request-not-implemented-by-the-device(%s)" % (tag, op[0]))
+            if op[0] in ("control", "program_change", "pitch_bend"):
+                # the property lists these requests for the MIDI file as well: a device that silently drops them
+                # (the pinned MidiFileOutputDevice inherited OutputDevice's no-ops) violates it
+                run.violation({"kind": "file-request-not-written", "site": site, "request": op[0]}, dict(doc, **{
+                    "observed": "%s%r is not implemented by the MIDI-file device class: nothing is written to the file" % (op[0], tuple(val(a) for a in op[1])),
+                    "expected": "a delta-timed %s message in the saved file" % op[0], "python": snippet}))
             fops.append("FSilent")
             continue
         fops.append("FReq %s" % req_term(op[0], op[1]))
